@@ -74,6 +74,15 @@ pub fn make_vocab(rng: &mut Rng, g: &GCase, k: VKind) -> Vocab {
 
 /// Grammar number `idx` of the pool: the corpus first, then generated grammars.
 pub fn grammar(rng: &mut Rng, idx: u64) -> GCase {
+    let g = grammar_untagged(rng, idx);
+    // number lexemes with multipleOf are compiled to intersections of regexes (class of its own for S1)
+    if g.kind == GKind::Json && g.text.contains("multipleOf") && !g.has_tag("json_multipleof") {
+        return g.tag("json_multipleof");
+    }
+    g
+}
+
+fn grammar_untagged(rng: &mut Rng, idx: u64) -> GCase {
     let c = corpus::all_corpus();
     if (idx as usize) < c.len() {
         return c[idx as usize].clone();
